@@ -140,11 +140,8 @@ func runOracle(input bufimage.Image, f filterSpec) *verdict {
 	}
 	out := bufimage.ImageToFileDescriptorSet(result)
 
-	// reference closure (only defined when the filter has no documented conflict)
-	var cl *refClosure
-	if len(conflicts) == 0 {
-		cl = u.closure(f, x)
-	}
+	// reference closure; with a documented conflict it is only used to recognise namespace-only messages
+	cl := u.closure(f, x)
 	// rootCause refines a linking failure: an element of an import file that nothing needs was kept
 	rootCause := func(from string) string {
 		owner := from
@@ -155,7 +152,7 @@ func runOracle(input bufimage.Image, f filterSpec) *verdict {
 				owner = ""
 			}
 		}
-		if e := u.byName[owner]; e != nil && e.isImport && cl != nil && !cl.need[owner] && !cl.encl[owner] {
+		if e := u.byName[owner]; e != nil && e.isImport && !cl.need[owner] && !cl.encl[owner] {
 			return ":unreferenced-element-of-import-file"
 		}
 		return ""
@@ -163,7 +160,7 @@ func runOracle(input bufimage.Image, f filterSpec) *verdict {
 
 	// (4) nothing excluded, no dangling reference
 	outIdx := indexFDS(out)
-	if cl != nil && len(cl.need) == 0 && len(out.File) > 0 {
+	if len(conflicts) == 0 && len(cl.need) == 0 && len(out.File) > 0 {
 		if _, diff := sameFDS(pristine, out); diff == "" {
 			return fail(v, "unfiltered-image-returned", "the filter include=%v exclude=%v leaves nothing, but FilterImage returned the complete input image (%d files) instead of an empty one", f.Include, f.Exclude, len(out.File))
 		}
@@ -202,7 +199,7 @@ func runOracle(input bufimage.Image, f filterSpec) *verdict {
 	}
 
 	// (3) completeness
-	if cl != nil {
+	if len(conflicts) == 0 {
 		wanted := make([]string, 0, len(cl.need)+len(cl.encl))
 		for n := range cl.need {
 			wanted = append(wanted, n)
@@ -245,7 +242,7 @@ func runOracle(input bufimage.Image, f filterSpec) *verdict {
 	}
 
 	// (5) survivors unchanged
-	needed := func(name string) bool { return cl == nil || cl.need[name] }
+	needed := func(name string) bool { return cl.need[name] }
 	cmp := &comparer{f: f, needed: needed}
 	inByPath := map[string]*descriptorpb.FileDescriptorProto{}
 	for _, fd := range pristine.File {
@@ -287,6 +284,11 @@ func runOracle(input bufimage.Image, f filterSpec) *verdict {
 		}
 	}
 
+	// determinism probe (needed to make sense of (6)): the same filter on a fresh clone of the same input
+	if d := rerunDiffers(pristineImage, f, out); d != "" {
+		return fail(v, "nondeterministic", "FilterImage(include=%v exclude=%v) gives different results for the same input: %s", f.Include, f.Exclude, d)
+	}
+
 	// (6) idempotence. The statement speaks of applying *the same filter* twice. That is only defined
 	// when the filter has no excludes: excluded names are gone after the first application and the
 	// documented behaviour for a missing name is an error. With excludes, the filter minus its
@@ -322,6 +324,12 @@ func runOracle(input bufimage.Image, f filterSpec) *verdict {
 		case msg == "":
 			v.class("idempotence-checked:filter-minus-vanished-excludes")
 		case same:
+			// is the filter a function of its input at all? re-run the first application a few times
+			for i := 0; i < 12; i++ {
+				if d := rerunDiffers(pristineImage, f, out); d != "" {
+					return fail(v, "nondeterministic", "FilterImage(include=%v exclude=%v) gives different results for the same input (run %d): %s", f.Include, f.Exclude, i+2, d)
+				}
+			}
 			return fail(v, "not-idempotent", "Filter(Filter(x)) != Filter(x) for include=%v exclude=%v: %s", inc2, exc2, msg)
 		default:
 			v.class("idempotence:filter-minus-vanished-excludes-differs")
@@ -343,6 +351,20 @@ func runOracle(input bufimage.Image, f filterSpec) *verdict {
 		v.class("file-dropped")
 	}
 	return v
+}
+
+// rerunDiffers applies f to a fresh clone of the input and reports how the result differs from out.
+func rerunDiffers(pristine bufimage.Image, f filterSpec, out *descriptorpb.FileDescriptorSet) string {
+	clone, err := bufimage.CloneImage(pristine)
+	if err != nil {
+		return ""
+	}
+	again, err := bufimageutil.FilterImage(clone, f.options(f.Include, f.Exclude)...)
+	if err != nil {
+		return "second run failed: " + err.Error()
+	}
+	_, msg := sameFDS(out, bufimage.ImageToFileDescriptorSet(again))
+	return msg
 }
 
 // sameFDS compares two descriptor sets file by file.
